@@ -136,6 +136,14 @@ func mockAsync(r *run) {
 	var mu sync.Mutex
 	procOrder := []*mockMsg{}
 	byPtr := map[*sarama.ProducerMessage]*mockMsg{}
+	// kind 6: a succeeding checker during which another goroutine adds one more (success) expectation - the new
+	// expectation goes to the end of the queue, whatever the mock is doing at that moment
+	lateDone := map[int]chan struct{}{}
+	for i, kind := range script {
+		if kind == 6 {
+			lateDone[i] = make(chan struct{})
+		}
+	}
 	for i, kind := range script {
 		i, kind := i, kind
 		var chk mocks.MessageChecker
@@ -147,6 +155,14 @@ func mockAsync(r *run) {
 					procOrder = append(procOrder, mm)
 				}
 				mu.Unlock()
+				if kind == 6 {
+					go func() {
+						mp.ExpectInputAndSucceed()
+						close(lateDone[i])
+					}()
+					time.Sleep(time.Microsecond) // let it try while this message is still being handled
+					return nil
+				}
 				if kind >= 4 {
 					return errChecker
 				}
@@ -158,10 +174,17 @@ func mockAsync(r *run) {
 			mp.ExpectInputAndSucceed()
 		case 1:
 			mp.ExpectInputAndFail(errScripted)
-		case 2, 4:
+		case 2, 4, 6:
 			mp.ExpectInputWithMessageCheckerFunctionAndSucceed(chk)
 		default:
 			mp.ExpectInputWithMessageCheckerFunctionAndFail(chk, errScripted)
+		}
+	}
+	// the reference queue grows accordingly (kind 6 occurs with a single sender only: message i takes expectation i)
+	nInitial := len(script)
+	for i := 0; i < len(script); i++ {
+		if script[i] == 6 {
+			script = append(script, 0)
 		}
 	}
 	var msgs []*mockMsg
@@ -224,9 +247,15 @@ func mockAsync(r *run) {
 		wg.Add(1)
 		go func() {
 			defer wg.Done()
-			for _, m := range ms {
+			for i, m := range ms {
 				mp.Input() <- m.msg
 				k.logf("sent m%d", m.id)
+				if ch := lateDone[i]; ch != nil && len(senders) == 1 && !mockRefused(c, m.id) {
+					select {
+					case <-ch: // the late expectation is in the queue before anything else is submitted
+					case <-time.After(time.Second):
+					}
+				}
 			}
 		}()
 	}
@@ -239,6 +268,16 @@ func mockAsync(r *run) {
 	}
 	k.logf("reports=%v", rep.calls)
 	// ---- reference model: FIFO of expectations ----
+	// (a late expectation exists only if the message that triggers it was processed)
+	{
+		fin := script[:nInitial]
+		for i := 0; i < len(fin) && i < len(msgs); i++ {
+			if fin[i] == 6 && !mockRefused(c, msgs[i].id) {
+				fin = append(fin, 0)
+			}
+		}
+		script = fin
+	}
 	n := len(msgs)
 	handled := n
 	if len(script) < n {
@@ -274,7 +313,7 @@ func mockAsync(r *run) {
 			kind := script[idx]
 			want := "success"
 			switch {
-			case kind >= 4:
+			case kind == 4 || kind == 5:
 				want = "error:" + errChecker.Error()
 				refuses++
 			case kind == 1 || kind == 3:
@@ -518,6 +557,11 @@ func mockConsumer(r *run) {
 	rep := &recReporter{}
 	cfg := mocks.NewTestConfig()
 	cfg.ChannelBufferSize = 256
+	small := false
+	if v, ok := c.Config.X["consumerChanBuf"]; ok && v < 256 {
+		cfg.ChannelBufferSize = v
+		small = true // yields cannot be made up front: a yielder goroutine per consumed partition feeds the reader
+	}
 	mc := mocks.NewConsumer(rep, cfg)
 	type pstate struct {
 		pc       *mocks.PartitionConsumer
@@ -547,12 +591,16 @@ func mockConsumer(r *run) {
 		case "yield":
 			if ps := parts[op.Partition]; ps != nil {
 				ps.yields = append(ps.yields, fmt.Sprintf("m%d", op.ID))
-				ps.pc.YieldMessage(&sarama.ConsumerMessage{Value: []byte(fmt.Sprintf("m%d", op.ID))})
+				if !small {
+					ps.pc.YieldMessage(&sarama.ConsumerMessage{Value: []byte(fmt.Sprintf("m%d", op.ID))})
+				}
 			}
 		case "yield-error":
 			if ps := parts[op.Partition]; ps != nil {
 				ps.yields = append(ps.yields, fmt.Sprintf("e%d", op.ID))
-				ps.pc.YieldError(fmt.Errorf("e%d", op.ID))
+				if !small {
+					ps.pc.YieldError(fmt.Errorf("e%d", op.ID))
+				}
 			}
 		}
 	}
@@ -587,6 +635,29 @@ func mockConsumer(r *run) {
 		wg.Add(1)
 		closeMode := op.N
 		leaveM, leaveE := opInt(&op, 0, 0), opInt(&op, 1, 0)
+		if small {
+			leaveM, leaveE = 0, 0 // everything yielded is read (an abandoned yielder would block for ever)
+			ys := ps.yields
+			pcs := ps.pc
+			wg.Add(1)
+			go func() {
+				defer wg.Done()
+				for _, y := range ys {
+					if y[0] == 'm' {
+						pcs.YieldMessage(&sarama.ConsumerMessage{Value: []byte(y)})
+					}
+				}
+			}()
+			wg.Add(1)
+			go func() {
+				defer wg.Done()
+				for _, y := range ys {
+					if y[0] == 'e' {
+						pcs.YieldError(fmt.Errorf("%s", y))
+					}
+				}
+			}()
+		}
 		{
 			nm, ne := 0, 0
 			for _, y := range ps.yields {
@@ -626,6 +697,9 @@ func mockConsumer(r *run) {
 				select {
 				case m := <-pc.Messages():
 					gotM = append(gotM, string(m.Value))
+					if hw := pc.HighWaterMarkOffset(); hw < m.Offset+1 {
+						r.violate("C20.offset-sequence", "mock consumer: partition %d delivered offset %d while its high-water mark reads %d", op.Partition, m.Offset, hw)
+					}
 					if last >= 0 && m.Offset != last+1 {
 						r.violate("C20.offset-sequence", "mock consumer: partition %d offset %d after %d (not consecutive)", op.Partition, m.Offset, last)
 					}
